@@ -69,6 +69,14 @@ pub open spec fn errno_abs(e: Error) -> u64 {
     }
 }
 pub uninterp spec fn stored_error(id: i32, e: Error) -> bool;
+/// R16: `ERROR_MAP.try_lock().ok()?` -- like lock_section_begin, but another thread may hold the lock at this moment: then the
+/// acquisition fails (false) and nothing is known about what the caller will do
+#[verifier::external_body]
+pub fn try_lock_section_begin(m: &mut HashMap<CReturn, Error>, sections: &mut Ghost<nat>) -> (acquired: bool)
+    ensures
+        final(sections)@ == old(sections)@ + 1,
+        old(sections)@ == 0 ==> final(m)@ == old(m)@,
+{ unimplemented!() }
 /// R16: `ERROR_MAP.lock().unwrap()`.  The map is passed in as `err_map`; `sections` counts the acquisitions made by
 /// this call.  The first critical section sees the map as it was on entry; between two critical sections other
 /// threads run, so from the second acquisition on the content is arbitrary.  (Poisoning is not modelled: no code
